@@ -347,3 +347,21 @@ def model_tag(m):
         if mm is m:
             return mt, cu
     return type(m).__name__, '?'
+
+
+def corpus_entity_texts(culture, recogniser=None):
+    """sorted distinct (recogniser, entity text) expected by the supported model-level Specs cases of the culture"""
+    out = set()
+    for f in spec_files(recogniser):
+        parts = f.split(os.sep)
+        lang, name = parts[-2], parts[-1]
+        if LANG_CULTURE.get(lang) != culture or 'Model' not in name:
+            continue
+        for s in load_spec(f):
+            if not py_supported(s):
+                continue
+            for r in s.get('Results') or []:
+                t = r.get('Text')
+                if isinstance(t, str) and 1 < len(t) <= 24:
+                    out.add((parts[-3], t))
+    return sorted(out)
